@@ -375,6 +375,7 @@ def main():
         t1 = time.time()
         mods = ["Vata.Properties." + os.path.basename(f)[:-5] for f in sorted(_glob.glob(os.path.join(LEAN, "Vata", "Properties", prop + "*.lean")))]
         mods += ["Vata.Properties.Dispatch", "Vata.Properties.CacheWiring"] if prop in ("C01", "C07", "C09") else []
+        mods += ["Vata.Properties.WrapperForward"] if prop in ("C02", "C03", "C08", "C10", "C14") else []
         rechecked = {}
         for m in mods:
             rc, out, err = sh(["lake", "env", "leanchecker", m], cwd=LEAN)
